@@ -142,7 +142,9 @@ func TokenNames(m TokMap) []string {
 	var out []string
 	for i := 0; i < 10000; i++ {
 		n := m.Id(i)
-		if n == "unknown" {
+		// Id answers "unknown" beyond the last terminal — unless a terminal is
+		// really spelled that way, in which case Type maps the name back to i
+		if n == "unknown" && m.Type("unknown") != i {
 			break
 		}
 		out = append(out, n)
